@@ -229,7 +229,7 @@ func (fv *FV) havoc(st *State, ms *modSet) {
 			}
 		}
 	}()
-	for o := range ms.objs {
+	for _, o := range sortedObjs(ms.objs) {
 		root := o
 		if a := st.alias[o]; a != nil {
 			ra := fv.resolveAlias(st, &Path{Root: o})
@@ -264,7 +264,7 @@ func (fv *FV) havoc(st *State, ms *modSet) {
 			st.assume(T(sx(">=", nv.S, "0"), SBool))
 		}
 	}
-	for g := range ms.ghosts {
+	for _, g := range sortedKeys(ms.ghosts) {
 		st.ghost[g] = fv.fresh(g, fv.reg.ghosts[g].Sort)
 	}
 }
